@@ -305,6 +305,11 @@ func (r *Resolver) resolve(ctx context.Context, name string, aliased *bool) (Res
 		if scheme == "http" {
 			scheme = "https"
 		}
+		// The scheme is one label of the query name, and a label with
+		// a dot in it cannot be written in a dotted name.
+		if strings.Contains(scheme, ".") {
+			return result, ErrInvalidName
+		}
 		name = u.Host
 	}
 	if h, p, err := net.SplitHostPort(name); err == nil {
